@@ -1,7 +1,7 @@
 SPECIFICATION Spec
 CONSTANTS
   Shapes <- Q_Shapes
-  Full = FALSE
+  Level = 0
   Names <- AllNames
 INVARIANT ShapeOK
 INVARIANT RealOut
